@@ -4,6 +4,9 @@
    L <hex|-> <len> <init>    -> CalculateCRC(buf, len, init) or OOB
    ENC <seq0> t:v:src:hex,.. -> outputs (hex | ERR) joined by ',' then final counter   (ENCL: pre-fix counter)
    VV <hdrmsg> <off> <buf>.. -> validate_crc of one header on each buffer (pure in the model): outcomes, crc, size
+   NOSCAN 0|1                -> leave the S/SE scans out of the analysis (large messages)
+   ST lazy|eager <maxpayload> <hex> -> SPEC frames of a stream: <len>#<seq>#<crc>@<off>;...
+   HH <op> <op> ...          -> a history on one MessageHeader object (see harness/py/c06_impl.py)
    B <hex>                   -> set the base message; prints its analysis
    E <byteoff> <xorhex> ...  -> analysis of base with each xorhex applied at its byteoff
    HC t:v:seq:src:hex        -> MessageHeader.calculate_crc: "<crc> <payload_size_bytes>" | ERR
@@ -26,6 +29,7 @@ let bytes_of_hex h = List.map n_of_int (hex_to_ints (if h = "-" then "" else h))
 let hex_of_bytes l = ints_to_hex (List.map int_of_n l)
 let base = ref []
 let framer_cap = ref 131072
+let noscan = ref false
 let show_v = function Accept n -> Printf.sprintf "A%d" (int_of_nat n) | Reject -> "R" | More -> "M"
 let show_frames (fs, _) = if fs = [] then "-" else String.concat ";" (List.map (fun (o, b) -> Printf.sprintf "%d:%d" (int_of_nat o) (List.length b)) fs)
 let analysis (l : n list) : string =
@@ -36,7 +40,7 @@ let analysis (l : n list) : string =
   let jl = encoder_judge false true mAX_EXPECTED_SIZE_BYTES in
   let je = encoder_judge true true (n_of_int (!framer_cap - 24)) in
   Printf.sprintf "V=%s I=%s C1=%s J=%s JE=%s S=%s SE=%s" v i c1 (show_v (jl l)) (show_v (je l))
-    (show_frames (scan jl O l)) (show_frames (scan je O l))
+    (if !noscan then "?" else show_frames (scan jl O l)) (if !noscan then "?" else show_frames (scan je O l))
 let apply_err (l : n list) (off : int) (x : n list) : n list =
   let rec go i l x = match l, x with
     | _, [] -> l
@@ -44,7 +48,7 @@ let apply_err (l : n list) (off : int) (x : n list) : n list =
     | a :: t, b :: xt -> if i < off then a :: go (i + 1) t x else (match encoder_xor_bytes [a] [b] with [c] -> c | _ -> a) :: go (i + 1) t xt in
   go 0 l x
 let parse_call s = match String.split_on_char ':' s with
-  | [t; v; src; h] -> ({ p_type = n_of_int (int_of_string t); p_version = n_of_int (int_of_string v); p_bytes = bytes_of_hex h }, n_of_int (int_of_string src))
+  | t :: v :: src :: h :: _ -> ({ p_type = n_of_int (int_of_string t); p_version = n_of_int (int_of_string v); p_bytes = bytes_of_hex h }, n_of_int (int_of_string src))
   | _ -> failwith "call"
 let () =
   try while true do
@@ -68,6 +72,44 @@ let () =
         let one b = match encoder_validate_crc h (bytes_of_hex b) o with
           | VcOk -> "ok" | VcTooBig -> "big" | VcNotEnough -> "notenough" | VcMismatch -> "mismatch" in
         Printf.printf "%s %d %d\n" (String.concat "," (List.map one bufs)) (int_of_n h.h_crc) (int_of_n h.h_psize)
+     | ["NOSCAN"; b] -> noscan := (b = "1"); print_endline "ok"
+     | ["ST"; mode; mx; h] ->
+        (* SPEC of a stream: the frames a left-to-right scan accepts: "<len>#<seq>#<crc>@<off>" *)
+        let l = bytes_of_hex h in
+        let j = encoder_judge (mode = "eager") true (n_of_int (int_of_string mx)) in
+        let (fs, _) = scan j O l in
+        let le4 b o = let g i = int_of_n (List.nth b (o + i)) in g 0 + 256 * (g 1 + 256 * (g 2 + 256 * g 3)) in
+        print_endline (if fs = [] then "-" else String.concat ";" (List.map (fun (o, b) ->
+          Printf.sprintf "%d#%d#%d@%d" (List.length b) (le4 b 12) (le4 b 4) (int_of_nat o)) fs))
+     | "HH" :: ops ->
+        (* a history on ONE MessageHeader object *)
+        let h = ref (encoder_new_header N0) in
+        let dead = ref false in
+        let vcs = function VcOk -> "ok" | VcTooBig -> "big" | VcNotEnough -> "notenough" | VcMismatch -> "mismatch" in
+        let nn x = n_of_int (int_of_string x) in
+        let one op =
+          if !dead then "-" else
+          match String.split_on_char ':' op with
+          | ["N"; t] -> h := encoder_new_header (nn t); "new"
+          | ["S"; v; sq; src] -> h := { !h with h_msgver = nn v; h_seq = nn sq; h_source = nn src }; "set"
+          | ["S"; v; sq; src; crc; rsv] -> h := { !h with h_msgver = nn v; h_seq = nn sq; h_source = nn src; h_crc = nn crc; h_reserved = nn rsv }; "set"
+          | ["U"; hx] -> (match encoder_unpack_into !h (bytes_of_hex hx) with None -> "short" | Some (h2, v) -> h := h2; vcs v)
+          | ["V"; hx; off] -> vcs (encoder_validate_crc !h (bytes_of_hex hx) (nn off))
+          | ["C"; hx; _] -> (match encoder_calculate_crc !h (bytes_of_hex hx) with None -> dead := true; "ERR" | Some h2 -> h := h2; string_of_int (int_of_n h2.h_crc))
+          | ["P"] -> (match encoder_pack_plain !h with None -> dead := true; "ERR" | Some (h2, b) -> h := h2; hex_of_bytes b)
+          | ["Q"; hx; _] -> (match encoder_pack_payload !h (bytes_of_hex hx) with None -> dead := true; "ERR" | Some (h2, b) -> h := h2; hex_of_bytes b)
+          | ["B"; hx; off; blen] ->
+             (match encoder_pack_payload !h (bytes_of_hex hx) with
+              | None -> dead := true; "ERR"
+              | Some (h2, b) -> h := h2;
+                 let off = int_of_string off and blen = int_of_string blen in
+                 let bi = List.map int_of_n b in
+                 let n = List.length bi in
+                 ints_to_hex (List.init blen (fun i -> if i >= off && i < off + n then List.nth bi (i - off) else 0xEE)))
+          | ["F"] -> let x = !h in String.concat "," (List.map (fun v -> string_of_int (int_of_n v))
+                       [x.h_reserved; x.h_crc; x.h_proto; x.h_msgver; x.h_type; x.h_seq; x.h_psize; x.h_source])
+          | _ -> "?" in
+        print_endline (String.concat " " (List.map one ops))
      | ["FM"; c] -> framer_cap := int_of_string c; print_endline "ok"
      | ["B"; h] -> base := bytes_of_hex h; print_endline (analysis !base)
      | "E" :: rest ->
